@@ -16,6 +16,7 @@ import (
 	"hash/fnv"
 	"os"
 	"runtime/debug"
+	"runtime/pprof"
 	"sort"
 	"strings"
 	"sync"
@@ -58,6 +59,8 @@ type Check struct {
 	// DeadlineQuick / DeadlineThorough bound the wall time of the enumeration; reaching it
 	// never produces a violation, only exhaustive:false.
 	DeadlineQuick, DeadlineThorough time.Duration
+	// WorkerVMemKB, when > 0, limits the virtual memory of each worker process (ulimit -v).
+	WorkerVMemKB int64
 	// HangSeconds is the per-case watchdog (default 30).
 	HangSeconds int
 }
@@ -93,6 +96,8 @@ type Ctx struct {
 
 	only    int64 // -1: all
 	onlySet map[int64]bool
+	doCount  int64
+	lastMark time.Time
 	start   int64
 	journal bool
 	idx     int64
@@ -190,8 +195,10 @@ func (c *Ctx) Do(class string, desc func() string, fn func(t *T)) {
 		if i < c.start || int(i%int64(c.NShards)) != c.Shard {
 			return
 		}
-		if c.evals&1023 == 0 {
-			if !c.deadline.IsZero() && time.Now().After(c.deadline) {
+		c.doCount++
+		if c.doCount&63 == 0 || time.Since(c.lastMark) > 2*time.Second {
+			c.lastMark = time.Now()
+			if !c.deadline.IsZero() && c.lastMark.After(c.deadline) {
 				c.deadlineHit = true
 				c.completed = i
 				return
@@ -265,6 +272,15 @@ func (t *T) Fail(key, format string, args ...any) {
 		d = d[:4000] + "…"
 	}
 	c.emit(msg{T: "F", F: &Failure{Key: key, Class: t.class, Case: safeDesc(t.desc), Detail: d, Index: c.curIdx.Load()}})
+}
+
+// Step marks the start of one sub-step of a batched case. In journal mode (used to attribute a fatal crash of the worker)
+// the sub-step description is written out before the step runs, so that the crash report names the exact input.
+func (t *T) Step(note func() string) {
+	if t.c.journal {
+		t.c.emit(msg{T: "J", I: t.c.curIdx.Load(), C: t.class, D: safeDesc(t.desc) + " :: " + safeDesc(note)})
+	}
+	t.c.curStart.Store(time.Now().UnixNano())
 }
 
 // Failed reports whether Fail was called for this case.
@@ -363,6 +379,12 @@ func runWorker(ch *Check, o workerOpts) int {
 			}
 		}
 	}()
+	if pf := os.Getenv("VERIF_CPUPROFILE"); pf != "" {
+		if f, err := os.Create(pf); err == nil {
+			pprof.StartCPUProfile(f)
+			defer pprof.StopCPUProfile()
+		}
+	}
 	ch.Run(c)
 	if !c.deadlineHit {
 		c.completed = c.idx
